@@ -13,7 +13,9 @@ package main
 //    file names, which differ only in tree-global inputs: the set of platforms
 //    (mk/platform/*.mk), the tool definitions (mk/tools/defaults.mk), the
 //    licenses (licenses/*), doc/CHANGES-*, the master sites (mk/fetch/sites.mk)
-//    and the user-settable variables (mk/defaults/mk.conf).  The packages are
+//    the user-settable variables (mk/defaults/mk.conf), doc/TODO, the option
+//    descriptions (mk/defaults/options.description), the directories lang/*
+//    (enumFromDirs) and mk/compiler.mk (enumFrom).  The packages are
 //    byte-identical in A and B, so any per-name / per-basename / per-path cache
 //    that outlives a run collides.  In one process (fresh G per run, shim
 //    VerifRunMain): A then B, and B then A; the second run must equal its
@@ -69,7 +71,7 @@ func c07GlobalsAuditStage(ctx *Ctx, res *Result) {
 		res.AddViolation(Violation{Key: "C07/globals-audit/" + p.Kind + "/" + p.Name,
 			What:       "audit/globals.json no longer covers the package-level state of the source: " + p.Detail,
 			FoundInput: false, Size: 1,
-			Replay:     map[string]any{"kind": "globals-audit", "broken": "audit/globals.json (hand classification of every package-level variable and of the functions writing it) = source", "problem": p.Kind, "item": p.Name, "detail": p.Detail}})
+			Replay: map[string]any{"kind": "globals-audit", "broken": "audit/globals.json (hand classification of every package-level variable and of the functions writing it) = source", "problem": p.Kind, "item": p.Name, "detail": p.Detail}})
 	}
 	if len(rep.Problems) == 0 && (rep.Items < 100 || rep.Files < 60) {
 		res.AddViolation(Violation{Key: "C07/globals-audit/scan-floor", What: fmt.Sprintf("coverage floor missed: the scan saw only %d variables in %d files", rep.Items, rep.Files),
@@ -89,6 +91,10 @@ type c07OTSpec struct {
 	License   bool     // licenses/c07-license exists
 	Site      bool     // mk/fetch/sites.mk defines MASTER_SITE_C07
 	UserVar   bool     // mk/defaults/mk.conf defines C07_USER_SETTING
+	Lang      []string // extra directories lang/<x> (python27, python313, lua53): enumFromDirs
+	Compiler  bool     // mk/compiler.mk lists the compiler c07cc: enumFrom
+	OptDesc   bool     // mk/defaults/options.description documents c07-option
+	Todo      bool     // doc/TODO asks for an update of ot-changes
 	Changes   int      // doc/CHANGES-2018: 0 none, 1 "Added cat/ot-changes version 0.9", 2 "Updated cat/ot-changes to 2.0"
 }
 
@@ -126,6 +132,18 @@ func c07OTTree(root string, spec c07OTSpec, cand []string, arch string, variant 
 		conf = append(conf, "C07_USER_SETTING?=\tyes")
 	}
 	t.Write("mk/defaults/mk.conf", lines(conf...))
+	for _, l := range spec.Lang {
+		t.Write("lang/"+l+"/Makefile", cvsID+"\n")
+	}
+	if spec.Compiler {
+		t.Write("mk/compiler.mk", strings.Replace(t.Read("mk/compiler.mk"), "_COMPILERS=\tgcc clang", "_COMPILERS=\tgcc clang c07cc", 1))
+	}
+	if spec.OptDesc {
+		t.Write("mk/defaults/options.description", "c07-option       Description of the C07 option\nexample-option   Description\n")
+	}
+	if spec.Todo {
+		t.Write("doc/TODO", lines("$"+"NetBSD$", "", "Suggested package updates", "", "\to ot-changes-3.0 [security]"))
+	}
 	ch := []string{"$" + "NetBSD$", "", "Changes to the packages collection and infrastructure in 2018:", ""}
 	switch spec.Changes {
 	case 1:
@@ -157,13 +175,19 @@ func c07OTTree(root string, spec c07OTSpec, cand []string, arch string, variant 
 	t.Write("cat/ot-site/Makefile", mk)
 	t.WritePackage("cat/ot-uservar", []string{"CONFIGURE_ARGS+=\t--with-setting=${C07_USER_SETTING}", ".if ${OPSYS} == " + cand[0] + " || ${OPSYS} == NetBSD", "CFLAGS+=\t-DC07", ".endif"})
 	t.WritePackage("cat/ot-changes", nil)
-	t.Write("cat/Makefile", lines(cvsID, "", "COMMENT=\tComment for the category", "", "SUBDIR+=\tot-changes", "SUBDIR+=\tot-license", "SUBDIR+=\tot-plist", "SUBDIR+=\tot-site",
+	t.WritePackage("cat/ot-enum", []string{"PYTHON_VERSIONS_ACCEPTED=\t312 313 27", "LUA_VERSIONS_ACCEPTED=\t54 53", "", ".include \"../../mk/bsd.prefs.mk\"", "",
+		".if ${PKGSRC_COMPILER} == c07cc || ${PKGSRC_COMPILER:Mclang}", "CFLAGS+=\t-DC07CC", ".endif"})
+	t.Write("mk/bsd.options.mk", cvsID+"\n")
+	t.WritePackage("cat/ot-option", []string{".include \"options.mk\""})
+	t.Write("cat/ot-option/options.mk", lines(cvsID, "", "PKG_OPTIONS_VAR=\t\tPKG_OPTIONS.ot-option", "PKG_SUPPORTED_OPTIONS=\tc07-option example-option", "", ".include \"../../mk/bsd.options.mk\"", "",
+		".if !empty(PKG_OPTIONS:Mc07-option)", "CONFIGURE_ARGS+=\t--enable-c07", ".endif", "", ".if !empty(PKG_OPTIONS:Mexample-option)", "CONFIGURE_ARGS+=\t--enable-example", ".endif"))
+	t.Write("cat/Makefile", lines(cvsID, "", "COMMENT=\tComment for the category", "", "SUBDIR+=\tot-changes", "SUBDIR+=\tot-enum", "SUBDIR+=\tot-license", "SUBDIR+=\tot-option", "SUBDIR+=\tot-plist", "SUBDIR+=\tot-site",
 		"SUBDIR+=\tot-tool", "SUBDIR+=\tot-uservar", "SUBDIR+=\tpkg", "", ".include \"../mk/misc/category.mk\""))
 	t.Write("Makefile", lines(cvsID, "", "SUBDIR+=\tcat", ""))
 	return t
 }
 
-var c07OTPkgs = []string{"ot-plist", "ot-tool", "ot-license", "ot-site", "ot-uservar", "ot-changes"}
+var c07OTPkgs = []string{"ot-plist", "ot-tool", "ot-license", "ot-site", "ot-uservar", "ot-changes", "ot-enum", "ot-option"}
 
 func c07OTCases(tree int, root string) []c07Case {
 	cs := []c07Case{{Tree: tree, Root: root, Cwd: ".", Args: []string{"-Wall", "-Cglobal", "-r", "."}}}
@@ -214,22 +238,35 @@ func c07OtherTreeStage(ctx *Ctx, res *Result, rng *Rng) {
 			p.sb.Platforms = append([]string{}, p.sa.Platforms...)
 		}
 		p.platformDiffer = i%4 != 3
+		// feature number f differs in the pairs with (i+f) even: exactly half of the pairs per feature, whatever the seed;
+		// the seed decides the direction and, for the other half, whether both trees have it or none
+		nf := 0
 		flip := func() (bool, bool) {
-			switch rng.Intn(4) {
-			case 0:
-				return true, false
-			case 1:
-				return false, true
-			case 2:
-				return true, true
+			nf++
+			r := rng.Intn(2) == 0
+			if (i+nf)%2 == 0 {
+				return r, !r
 			}
-			return false, false
+			return r, r
 		}
 		p.sa.Tool, p.sb.Tool = flip()
 		p.sa.License, p.sb.License = flip()
 		p.sa.Site, p.sb.Site = flip()
 		p.sa.UserVar, p.sb.UserVar = flip()
 		p.sa.Changes, p.sb.Changes = rng.Intn(3), rng.Intn(3)
+		p.sa.Compiler, p.sb.Compiler = flip()
+		p.sa.OptDesc, p.sb.OptDesc = flip()
+		p.sa.Todo, p.sb.Todo = flip()
+		langs := []string{"python27", "python313", "lua53"}
+		for _, l := range langs {
+			inA, inB := flip()
+			if inA {
+				p.sa.Lang = append(p.sa.Lang, l)
+			}
+			if inB {
+				p.sb.Lang = append(p.sb.Lang, l)
+			}
+		}
 		if i%4 == 3 && p.sa.Tool == p.sb.Tool && p.sa.License == p.sb.License {
 			p.sa.License, p.sb.License = true, false
 		}
@@ -287,7 +324,7 @@ func c07OtherTreeStage(ctx *Ctx, res *Result, rng *Rng) {
 			res.AddViolation(Violation{Key: "C07/inprocess/other-tree-before/crash",
 				What:       fmt.Sprintf("the child process running tree A then tree B of pair %d died: %v %v", i, p.errAB, p.errBA),
 				FoundInput: false, Size: 1,
-				Replay:     map[string]any{"kind": "other-tree-crash", "broken": "the child process running two trees one after the other died", "error": fmt.Sprint(p.errAB, p.errBA)}})
+				Replay: map[string]any{"kind": "other-tree-crash", "broken": "the child process running two trees one after the other died", "error": fmt.Sprint(p.errAB, p.errBA)}})
 			continue
 		}
 		res.Count("other-tree.pairs", 1)
@@ -309,7 +346,7 @@ func c07OtherTreeStage(ctx *Ctx, res *Result, rng *Rng) {
 		if p.platformDiffer && na > 0 && nb > 0 && (strings.Contains(p.fa[0].Stdout, "is already listed in PLIST."+p.cand[0]+":") && !strings.Contains(p.fb[0].Stdout, "is already listed in PLIST."+p.cand[0]+":")) {
 			res.Count("other-tree.pairs-platform-dependent-PLIST-diagnostic", 1)
 		}
-		for _, kw := range [][2]string{{"license", "License file"}, {"tool", "Unknown tool"}, {"uservar", "C07_USER_SETTING"}, {"site", "MASTER_SITE_C07"}, {"changes", "ot-changes"}} {
+		for _, kw := range [][2]string{{"license", "License file"}, {"tool", "Unknown tool"}, {"uservar", "C07_USER_SETTING"}, {"site", "MASTER_SITE_C07"}, {"changes", "ot-changes/"}, {"enum-dirs", "_VERSIONS_ACCEPTED"}, {"enum-compiler", "c07cc"}, {"option", "c07-option"}, {"todo", "doc/TODO"}} {
 			if strings.Contains(p.fa[0].Stdout, kw[1]) != strings.Contains(p.fb[0].Stdout, kw[1]) ||
 				strings.Count(p.fa[0].Stdout, kw[1]) != strings.Count(p.fb[0].Stdout, kw[1]) {
 				res.Count("other-tree.pairs-differ-in."+kw[0], 1)
@@ -343,15 +380,19 @@ func c07OtherTreeStage(ctx *Ctx, res *Result, rng *Rng) {
 			"other-tree.pairs-platform-in-one-tree-only":           n / 2,
 			"other-tree.pairs-platform-dependent-PLIST-diagnostic": n / 2,
 			"other-tree.already-listed-in-PLIST":                   n,
-			"other-tree.pairs-differ-in.license":                   n / 8,
-			"other-tree.pairs-differ-in.tool":                      n / 8,
+			"other-tree.pairs-differ-in.license":                   n / 4,
+			"other-tree.pairs-differ-in.tool":                      n / 4,
+			"other-tree.pairs-differ-in.enum-dirs":                 n / 4,
+			"other-tree.pairs-differ-in.enum-compiler":             n / 4,
+			"other-tree.pairs-differ-in.option":                    n / 4,
+			"other-tree.pairs-differ-in.todo":                      n / 4,
 			"other-tree.inprocess-runs":                            n * ncase * 3,
 		} {
 			if got, _ := res.Distribution[k].(int); got < floor {
 				res.AddViolation(Violation{Key: "C07/correspondence/other-tree-floor/" + k,
 					What:       fmt.Sprintf("coverage floor missed: %s = %d < %d", k, got, floor),
 					FoundInput: false, Size: 1,
-					Replay:     map[string]any{"kind": "floor", "broken": "the other-tree-before stage no longer reaches " + k}})
+					Replay: map[string]any{"kind": "floor", "broken": "the other-tree-before stage no longer reaches " + k}})
 			}
 		}
 	}
@@ -364,7 +405,7 @@ func c07ReportOtherTree(ctx *Ctx, res *Result, before, target c07Case, got, want
 		res.AddViolation(Violation{Key: "C07/correspondence/shim-run/other-tree",
 			What:       fmt.Sprintf("VerifRunMain alone differs from the binary for `pkglint %s`", strings.Join(target.Args, " ")),
 			FoundInput: false, Size: 1,
-			Replay:     map[string]any{"kind": "shim", "broken": "shim VerifRunMain = cmd/pkglint main"}})
+			Replay: map[string]any{"kind": "shim", "broken": "shim VerifRunMain = cmd/pkglint main"}})
 		return
 	}
 	repro := false
@@ -373,13 +414,34 @@ func c07ReportOtherTree(ctx *Ctx, res *Result, before, target c07Case, got, want
 			repro, got = true, outs[1]
 		}
 	}
+	if repro {
+		// shrink: when a single package is checked, the other ot-* packages of both trees are not needed
+		if last := target.Args[len(target.Args)-1]; strings.HasPrefix(last, "cat/ot-") && target.Cwd == "." && before.Cwd == "." {
+			sa, sb := before, target
+			sa.Root, sb.Root = filepath.Join(ctx.Work, "ot-shrink-a"), filepath.Join(ctx.Work, "ot-shrink-b")
+			os.RemoveAll(sa.Root)
+			os.RemoveAll(sb.Root)
+			if CopyTree(before.Root, sa.Root) == nil && CopyTree(target.Root, sb.Root) == nil {
+				for _, p := range c07OTPkgs {
+					if "cat/"+p != last {
+						os.RemoveAll(filepath.Join(sa.Root, "cat", p))
+						os.RemoveAll(filepath.Join(sb.Root, "cat", p))
+					}
+				}
+				w2 := c07Fresh(ctx, sb, "shr")
+				if outs, err := c07Seq(ctx, "ot-shrunk", []c07Case{sa, sb}); err == nil && w2.same(c07Fresh(ctx, sb, "shr2")) && !outs[1].same(w2) {
+					before, target, want, got = sa, sb, w2, outs[1]
+				}
+			}
+		}
+	}
 	key := "C07/inprocess/other-tree-before"
 	if !repro {
 		key = "C07/inprocess/other-tree-before-unstable"
 	}
 	res.AddViolation(Violation{
 		Key: key,
-		What: fmt.Sprintf("`pkglint %s` (cwd %s) on tree B prints something else when the same process has run `pkglint %s` on ANOTHER tree A before (same package paths; A and B differ in mk/platform, mk/tools, licenses, doc/CHANGES, sites, mk.conf): %s",
+		What: fmt.Sprintf("`pkglint %s` (cwd %s) on tree B prints something else when the same process has run `pkglint %s` on ANOTHER tree A before (same package paths; A and B differ only in tree-global files: mk/platform, mk/tools, licenses, doc/CHANGES, doc/TODO, sites, mk.conf, options.description, lang/*, mk/compiler.mk): %s",
 			strings.Join(target.Args, " "), target.Cwd, strings.Join(before.Args, " "), c07Where(want, got)),
 		FoundInput: repro,
 		Size:       len(want.Stdout) + len(got.Stdout),
